@@ -15,13 +15,17 @@ RULE = ('data sets: all ordered tuples of distinct lattice points (Q: 1-D {0..5}
         '1-D n=5 rotations; T: 1-D {0..6} n<=5, 2-D 3x3 n<=4) x metrics {euclidean, manhattan, callable '
         'chebyshev, callable squared-euclidean} x dtypes {f8,f4,i8,i4} x entry points {kcenters, KCenters, '
         'kcenters+init_centers, kmedoids cold/warm(inds|state|traj-frame pairs; state distances also as float32/int64), KMedoids, '
-        'hybrid, KHybrid, the same estimator object fitted on two data sets in a row} x '
+        'hybrid, KHybrid, the same estimator object fitted on two data sets in a row, init_centers given as a python list of rows '
+        '(kcenters / KCenters.fit / hybrid) and as the centers list of an earlier result (which must stay self-consistent), '
+        'kcenters with use_triangle_inequality=True for every k and radius} x wide-range 1-D sets over '
+        '{0,-600000,-300002,-300001,-299999,300000,7} (n<=4; frames a few units beyond the half-way bound) x '
         'every k in 1..n+2 (more clusters than frames included), every radius from the data, sweeps 0..3, seeds {s,s+1,s+2}; state = (data, metric, dtype, '
         'entry, params); non-trivial = result with >=2 centers and >=1 non-center frame')
-ASSUMPTIONS = ['small-scope: <=5 frames on integer lattices (distances exact in float64)',
+ASSUMPTIONS = ['use_triangle_inequality=True is only exercised with metrics that obey the triangle inequality (not squared euclidean)',
+               'small-scope: <=5 frames on integer lattices (distances exact in float64)',
                'oracle distances computed by NumPy in float64; equality tolerance 1e-9',
                'seed alphabet {s,s+1,s+2}: clauses must hold for every seed, none is compared to a stored value']
-GUARDS = {'refit': 200, 'more_clusters_than_frames': 200, 'pam_accept': 200, 'pam_reject': 200, 'radius_stop': 200, 'warm_pairs': 200, 'init_centers': 200,
+GUARDS = {'init_list': 200, 'continuation': 100, 'triangle_shortcut': 500, 'wide_range': 200, 'refit': 200, 'more_clusters_than_frames': 200, 'pam_accept': 200, 'pam_reject': 200, 'radius_stop': 200, 'warm_pairs': 200, 'init_centers': 200,
           'callable_metric': 200, 'int_dtype': 200}
 
 METRICS = ('euclidean', 'manhattan', 'chebyshev', 'sqeuclid')
@@ -40,9 +44,11 @@ def datasets(tier):
     else:
         out += [t for t in cr.lattice_sets(range(7), 5)]
         out += [t for t in cr.lattice_sets(cr.grid((3, 3)), 4)]
+    out += [t for t in cr.lattice_sets(WIDE, 4 if tier == 'quick' else 5, 3)][::(3 if tier == 'quick' else 1)]
     return out
 
 
+WIDE = (0, -600000, -300002, -300001, -299999, 300000, 7)
 NSH = {'quick': 64, 'thorough': 512}
 
 
@@ -92,6 +98,19 @@ def entries(n, D, full, seed):
                 yield ('kcenters_init', {'init': list(sub)[::-1], 'k': min(n, m + 1)})
     if not full:
         return
+    for k in range(1, n + 1):
+        yield ('kcenters_k_tri', {'k': k})
+    for r in radii:
+        yield ('kcenters_r_tri', {'r': float(r)})
+        yield ('kcenters_r_tri', {'r': float(r) * 0.75})
+    for m in range(1, min(3, n) + 1):
+        for sub in list(itertools.combinations(range(n), m))[:5]:
+            k = min(n, m + 1)
+            yield ('kcenters_initlist', {'init': list(sub), 'k': k})
+            yield ('KCenters_initlist', {'init': list(sub), 'k': k})
+            yield ('hybrid_initlist', {'init': list(sub), 'k': k, 'iters': 1, 'seed': seed})
+        yield ('kcenters_continue', {'k0': m, 'k': min(n, m + 1)})
+        yield ('KCenters_continue', {'k0': m, 'k': min(n, m + 1)})
     seeds = (seed, seed + 1, seed + 2)
     for k in range(1, n + 1):
         for s in seeds:
@@ -155,6 +174,31 @@ def run_entry(X, metric, entry, p):
         init = X[p['init']].copy()
         inputs['init_centers'] = init
         return kc.kcenters(X, m, n_clusters=p['k'], init_centers=init), inputs
+    if entry == 'kcenters_k_tri':
+        return kc.kcenters(X, m, n_clusters=p['k'], use_triangle_inequality=True), inputs
+    if entry == 'kcenters_r_tri':
+        return kc.kcenters(X, m, dist_cutoff=p['r'], use_triangle_inequality=True), inputs
+    if entry.endswith('_initlist'):
+        init = [X[i].copy() for i in p['init']]          # a python LIST of rows (what result.centers / est.centers_ are)
+        inputs['init_centers'] = init
+        if entry == 'kcenters_initlist':
+            return kc.kcenters(X, m, n_clusters=p['k'], init_centers=init), inputs
+        if entry == 'KCenters_initlist':
+            return KCenters(m, n_clusters=p['k']).fit(X, init_centers=init).result_, inputs
+        return hy.hybrid(X, m, n_iters=p['iters'], n_clusters=p['k'], init_centers=init, random_state=p['seed']), inputs
+    if entry.endswith('_continue'):
+        # continue an earlier result from its own centers list; the EARLIER result must stay what it was
+        if entry == 'kcenters_continue':
+            r0 = kc.kcenters(X, m, n_clusters=p['k0'])
+            c0 = r0.centers
+        else:
+            e0 = KCenters(m, n_clusters=p['k0']).fit(X)
+            r0, c0 = e0.result_, e0.centers_
+        inputs['earlier'] = (r0, snapshot(list(c0)), snapshot(np.asarray(r0.center_indices)), snapshot(r0.assignments), snapshot(r0.distances))
+        inputs['earlier_centers'] = c0
+        if entry == 'kcenters_continue':
+            return kc.kcenters(X, m, n_clusters=p['k'], init_centers=c0), inputs
+        return KCenters(m, n_clusters=p['k']).fit(X, init_centers=c0).result_, inputs
     if entry == 'kmedoids_cold':
         return km.kmedoids(X, m, n_clusters=p['k'], n_iters=p['iters'], random_state=p['seed']), inputs
     if entry == 'hybrid_k':
@@ -254,8 +298,8 @@ def check_case(case, ctx):
     if entry.startswith('refit_'):
         ctx.guard('refit')
     before = None
-    want_k = p.get('k') if entry in ('kcenters_k', 'KCenters_k', 'kcenters_init', 'kmedoids_cold',
-                                     'hybrid_k', 'KHybrid_k') or entry.startswith('refit_') else (len(p['inds']) if 'inds' in p else None)
+    want_k = p.get('k') if entry in ('kcenters_k', 'KCenters_k', 'kcenters_init', 'kmedoids_cold', 'kcenters_k_tri',
+                                     'hybrid_k', 'KHybrid_k') or entry.endswith('_initlist') or entry.endswith('_continue') or entry.startswith('refit_') else (len(p['inds']) if 'inds' in p else None)
     if want_k is not None and want_k > n:
         want_k = n          # distinct frames: the radius reaches 0 with n centers
         ctx.guard('more_clusters_than_frames')
@@ -269,7 +313,22 @@ def check_case(case, ctx):
         ctx.violation('%s:mutates:X' % tag, case, 'data modified: %r -> %r' % (X0.tolist(), X.tolist()))
     exp = {}
     if 'init_centers' in inputs:
-        exp['init_centers'] = X0[p['init']]
+        exp['init_centers'] = [X0[i] for i in p['init']] if entry.endswith('_initlist') else X0[p['init']]
+    if entry.endswith('_initlist'):
+        ctx.guard('init_list')
+    if entry.endswith('_tri'):
+        ctx.guard('triangle_shortcut')
+    if np.abs(X0).max() > 1000:
+        ctx.guard('wide_range')
+    if 'earlier' in inputs:
+        ctx.guard('continuation')
+        r0, s_c, s_i, s_a, s_d = inputs['earlier']
+        now = (snapshot(list(inputs['earlier_centers'])), snapshot(np.asarray(r0.center_indices)), snapshot(r0.assignments), snapshot(r0.distances))
+        if now != (s_c, s_i, s_a, s_d) or len(r0.centers) != len(r0.center_indices):
+            what = 'centers' if now[0] != s_c or len(r0.centers) != len(r0.center_indices) else 'fields'
+            ctx.violation('%s:mutates:earlier_result:%s' % (entry, what), case,
+                          'continuing from an earlier result changed that result: now %d centers for %d center indices' % (
+                              len(r0.centers), len(r0.center_indices)))
     if 'assignments' in inputs or 'distances' in inputs:
         lab, dist = cr.nearest_state(D, p['inds'])
         exp['assignments'], exp['distances'] = lab, dist
@@ -312,10 +371,16 @@ def run_shard(sh, ctx):
     ds = datasets(tier)
     for j in range(i, len(ds), NSH[tier]):
         pts = ds[j]
+        wide = max(abs(v) for q in pts for v in (q if isinstance(q, (tuple, list)) else (q,))) > 1000
         for metric, dtype, full in combos(True):
+            if wide and (metric not in ('euclidean', 'manhattan') or dtype not in ('float64', 'int64')):
+                continue
+            full = full or wide
             X = cr.as_array(pts, dtype)
             D = cr.dist_matrix(X, metric)
             for entry, p in entries(len(X), D, full, ctx.seed):
+                if entry.endswith('_tri') and metric == 'sqeuclid':
+                    continue        # the shortcut presupposes a metric obeying the triangle inequality
                 case = {'pts': pts, 'dtype': dtype, 'metric': metric, 'entry': entry, 'p': p}
                 check_case(case, ctx)
         if j % 97 == 0:
